@@ -3,6 +3,7 @@ package props
 import (
 	"fmt"
 	"reflect"
+	"strings"
 	"testing"
 
 	"github.com/hashicorp/go-argmapper"
@@ -198,6 +199,10 @@ type C07Case struct {
 	// Producer: id of a converter that could produce another value under the
 	// label of the supplied same-named value (0 = none)
 	Producer int `json:"producer,omitempty"`
+	// Generated: the producer is emitted by a converter generator
+	Generated bool `json:"generated,omitempty"`
+	// Levels: shape 4 with a second two-input converter on top (2), else 0
+	Levels int `json:"levels,omitempty"`
 }
 
 // traceToInput follows a value back through single-input converter
@@ -220,7 +225,7 @@ func traceToInput(w *engine.World, evs []engine.Event, tok int) (int, bool) {
 					// one that is not the named option)
 					di = -1
 					for i, a := range ev.Args {
-						if a.L.Name != "q" {
+						if !strings.HasPrefix(a.L.Name, "q") {
 							di = i
 						}
 					}
@@ -255,6 +260,12 @@ func evalC07(c *engine.Case) engine.Verdict {
 	}
 	if x.Producer != 0 {
 		v.Class("producer-of-the-supplied-label")
+	}
+	if x.Levels == 2 {
+		v.Class("two-nested-multi-input-converters")
+	}
+	if x.Generated {
+		v.Class("producer-emitted-by-a-generator")
 	}
 	for _, in := range sc.Inputs {
 		if in.Tok == x.NameInput && in.L.Sub != "" {
@@ -404,6 +415,26 @@ func genC07Multi(g engine.G) *engine.Case {
 	}
 	sc.Convs = []engine.FuncSpec{{ID: 1, In: in, InForm: engine.Pick(g, []string{engine.FormStruct, engine.FormPtr}), Out: []engine.Label{out}, OutForm: outForm, HasErr: g.Bool()}}
 	sc.Target = engine.FuncSpec{ID: engine.TargetID, In: []engine.Label{{Name: n, Type: t1, Dyn: t1}}, InForm: engine.Pick(g, []string{engine.FormStruct, engine.FormPtr}), OutForm: engine.FormPos}
+	if g.Pct(40) {
+		// two levels: the converter's output is only an intermediate value; a
+		// second two-input converter (own named option q2) makes the
+		// parameter out of it. The name preference has to reach the INNER
+		// converter's type-only input through both nested searches.
+		tm, tq2, t2 := perm[3], perm[4], perm[5]
+		sc.Convs[0].Out = []engine.Label{{Type: tm, Dyn: tm}}
+		sc.Convs[0].OutForm = engine.GenForm(g)
+		in2 := []engine.Label{{Name: "q2", Type: tq2, Dyn: tq2}, {Type: tm, Dyn: tm}}
+		if g.Bool() {
+			in2[0], in2[1] = in2[1], in2[0]
+		}
+		sc.Convs = append(sc.Convs, engine.FuncSpec{ID: 2, In: in2, InForm: engine.Pick(g, []string{engine.FormStruct, engine.FormPtr}), Out: []engine.Label{{Type: t2, Dyn: t2}}, OutForm: engine.GenForm(g)})
+		sc.Convs = rapidPerm(g, sc.Convs)
+		tok++
+		sc.Inputs = append(sc.Inputs, engine.Input{L: engine.Label{Name: "q2", Type: tq2, Dyn: tq2}, Tok: tok})
+		sc.Inputs = rapidPerm(g, sc.Inputs)
+		sc.Target.In = []engine.Label{{Name: n, Type: t2, Dyn: t2}}
+		x.Levels = 2
+	}
 	c := &engine.Case{Sc: sc, Reps: 8}
 	c.SetX(&x)
 	return c
@@ -621,7 +652,15 @@ func genC07(g engine.G) *engine.Case {
 				p.Out = append(p.Out, extra)
 				producerExtra = &extra
 			}
-			convs = append(convs, p)
+			if g.Pct(30) {
+				// the producer is not supplied but EMITTED by a converter
+				// generator (for the value it takes as input)
+				pc := p
+				sc.Gens = append(sc.Gens, engine.GenSpec{ID: 9, From: z, Mode: "emit", Emit: &pc})
+				x.Generated = true
+			} else {
+				convs = append(convs, p)
+			}
 			x.Producer = id
 		}
 	}
